@@ -4,4 +4,5 @@ import Parmcb.Props.C02d
 import Parmcb.Props.C02e
 import Parmcb.Props.C02f
 import Parmcb.Props.C02g
-/-! all C02 property theorems (C02, C02b … C02g) in one import -/
+import Parmcb.Props.C02h
+/-! all C02 property theorems (C02, C02b … C02h) in one import -/
